@@ -87,6 +87,7 @@ def program(case):
       lines.append('@Limit(P, %d);' % case['k'])
   dbody = 'D(%s)' % ', '.join(vs)
   ps = case['pshape']
+  first_rule = len(lines)
   if ps == 'copy':
     lines.append('P(%s)%s :- %s;' % (head_args(case, vs), deno, dbody))
   elif ps == 'filter':
@@ -102,6 +103,16 @@ def program(case):
     else:
       lines.append('P(%s) distinct%s :- %s;' % (head_args(case, vs, agg_last=True), deno, dbody))
       lines.append('P(%s) distinct :- E(%s);' % (head_args(case, vs, agg_last=True), ', '.join(vs)))
+  if case.get('made'):
+    # the rules and annotations written above define the template Tpl over the parameter Src; P is made from it
+    import re as _re
+    for i in range(len(lines)):
+      if lines[i].startswith('@OrderBy(P,') or lines[i].startswith('@Limit(P,'):
+        lines[i] = lines[i].replace('(P,', '(Tpl,', 1)
+      elif i >= first_rule:
+        lines[i] = _re.sub(r'^P\(', 'Tpl(', lines[i]).replace(dbody, 'Src(%s)' % ', '.join(vs))
+    lines.append('Src(%s) :- D(%s), a > 1000;' % (', '.join(vs), ', '.join(vs)))
+    lines.append('P := Tpl(Src: D);')
   plan = {'': None, 'with': '@With(P);', 'nowith': '@NoWith(P);', 'ground': '@Ground(P);',
           'noinject': '@NoInject(P);'}[case['plan']]
   if plan:
@@ -231,6 +242,8 @@ def gen_case(r, k_mode='all'):
   if case['pshape'] == 'filter':
     case['t'] = r.choice([-2, 0, 1, 3, 9])
   case['form'] = r.choice(['annotation', 'annotation', 'denotation'])
+  # P made by a functor from an ordered / limited template: P := Tpl(Src: D) inherits the ORDER BY / LIMIT of Tpl
+  case['made'] = r.random() < 0.2
   case['plan'] = r.choice(PLANS + [''])
   case['consumer'] = r.choice(CONSUMERS)
   mode = r.random()
